@@ -130,10 +130,16 @@ func (w *World) pureDef(fn *ssa.Function) *PureDef {
 	pureByFn[fn] = pd
 	pureByName[pd.name] = pd
 	pureByName[pd.name+"!ok"] = pd
+	for j := range pd.moreSorts {
+		pureByName[fmt.Sprintf("%s!r%d", pd.name, j+1)] = pd
+	}
 	w.summarize(pd)
 	if pd.state != 2 {
 		delete(pureByName, pd.name)
 		delete(pureByName, pd.name+"!ok")
+		for j := range pd.moreSorts {
+			delete(pureByName, fmt.Sprintf("%s!r%d", pd.name, j+1))
+		}
 		return nil
 	}
 	return pd
@@ -493,7 +499,7 @@ func (w *World) eventSorts(name string, from *ssa.Function) ([]string, []string,
 	evSort := func(t types.Type) string {
 		switch t.Underlying().(type) {
 		case *types.Signature:
-			return "Int"
+			return "String"
 		case *types.Pointer:
 			s := w.sortOf(t)
 			if strings.HasPrefix(s, "Ptr_") {
